@@ -100,7 +100,7 @@ pub async fn run_refs(cfg: RunCfg) -> RunResult {
     let clusters: [&[&str]; 5] = [&["a", "ab", "a/b"], &["ab", "abc", "a"], &["a/b", "a/bc", "a/b/c"], &["b", "b/a", "ba"], &["a.b", "a-b", "a"]];
     let cluster: Vec<&str> = r.rng.pick(&clusters).to_vec();
     let nsteps = {
-        let drawn = r.rng.range(6, 14) as u64;
+        let drawn = if cfg.thorough() { r.rng.range(10, 28) } else { r.rng.range(6, 14) } as u64;
         cfg.max_steps.map(|m| m.min(drawn)).unwrap_or(drawn)
     };
     for step in 0..nsteps {
